@@ -1427,3 +1427,304 @@ func isIntSliceSliceT(t types.Type) bool {
 	b, ok := s2.Elem().Underlying().(*types.Basic)
 	return ok && b.Kind() == types.Int
 }
+
+// planarLayoutArgsRule (C11): planar code never asks dimension-generic code to look at more than X and Y.
+func planarLayoutArgsRule(p *core.Program, r *core.Report, rule string) {
+	r.Rule(rule, "in the planar packages (xy, xy/internal/..., xy/lineintersector, bigxy) every call into module code outside them that takes a geom.Layout argument - other than the New* constructors, which only wrap storage, and Layout's own methods - passes the constant geom.XY: comparisons delegated to dimension-generic helpers (Coord.Equal, Bounds.Overlaps*) then see the X and Y ordinates only, whatever the layout of the data", 8)
+	planar := func(path string) bool {
+		return strings.HasPrefix(path, core.ModPath+"/xy") && !strings.HasPrefix(path, core.ModPath+"/xyz") || path == core.ModPath+"/bigxy"
+	}
+	xyC, _ := p.Pkg("").Types.Scope().Lookup("XY").(*types.Const)
+	if xyC == nil {
+		r.Lost(rule, "geom.XY", "constant not found")
+		return
+	}
+	xyV, _ := constant.Int64Val(xyC.Val())
+	isLayout := func(t types.Type) bool {
+		n, ok := t.(*types.Named)
+		return ok && n.Obj().Name() == "Layout" && n.Obj().Pkg() != nil && n.Obj().Pkg().Path() == core.ModPath
+	}
+	for _, fn := range p.SrcFuncs(true) {
+		if !planar(core.FnPkgPath(fn)) {
+			continue
+		}
+		n := 0
+		for _, c := range eng.Calls(fn) {
+			o := eng.CalleeObj(c)
+			if o == nil || o.Pkg() == nil || planar(o.Pkg().Path()) || !strings.HasPrefix(o.Pkg().Path(), core.ModPath) {
+				continue
+			}
+			if strings.HasPrefix(o.Name(), "New") {
+				continue
+			}
+			// one named exception: transform.UniqueCoords(layout, compare, coords) uses its layout for the stride only;
+			// equality of coordinates is decided by the comparator the caller supplies (read: transform/transform.go)
+			if o.Name() == "UniqueCoords" && o.Pkg().Path() == core.ModPath+"/transform" {
+				continue
+			}
+			if sig, ok := o.Type().(*types.Signature); ok && sig.Recv() != nil && isLayout(sig.Recv().Type()) {
+				continue
+			}
+			for _, a := range c.Common().Args {
+				if !isLayout(a.Type()) {
+					continue
+				}
+				n++
+				k, isK := eng.ConstInt(a)
+				key := fmt.Sprintf("%s/%s#%d", short(fn), o.Name(), n)
+				r.Check(isK && k == xyV, rule, key, p.Pos(c.Pos()), true, "layout argument is the constant geom.XY",
+					"planar code passes "+a.String()+" (not the constant geom.XY) as the layout of a call to "+o.FullName()+": the helper then compares Z/M ordinates too, and the planar answer depends on the extra dimensions")
+			}
+		}
+	}
+}
+
+// rdpSingleDecisionRule (C20): which vertices are dropped is decided in one place, dpWorker's threshold test.
+func rdpSingleDecisionRule(p *core.Program, r *core.Report, rule string) {
+	r.Rule(rule, "SimplifyFlatCoords contains no floating-point comparison and no distance computation of its own: the result is read off the mask that dpWorker filled, dpWorker is the only caller of distanceFromSegmentSquared, and dpWorker does compare a float (positive control of the matcher) - so no fast path can keep or drop vertices by a different criterion than the recursive farthest-point test", 3)
+	sf := mustFn(p, r, rule, "xy", "SimplifyFlatCoords")
+	dw := mustFn(p, r, rule, "xy", "dpWorker")
+	ds := mustFn(p, r, rule, "xy", "distanceFromSegmentSquared")
+	if sf == nil || dw == nil || ds == nil {
+		return
+	}
+	floatCmps := func(fn *ssa.Function) (n int, pos string) {
+		for _, b := range fn.Blocks {
+			for _, in := range b.Instrs {
+				bo, ok := in.(*ssa.BinOp)
+				if !ok || !(eng.IsOrderedCmp(bo.Op) || bo.Op == token.EQL || bo.Op == token.NEQ) {
+					continue
+				}
+				if bt, isB := bo.X.Type().Underlying().(*types.Basic); isB && bt.Info()&types.IsFloat != 0 {
+					n++
+					pos = p.Pos(bo.Pos())
+				}
+			}
+		}
+		return
+	}
+	n, pos := floatCmps(sf)
+	r.Check(n == 0, rule, short(sf)+"/no-float-decision", p.Pos(sf.Pos()), true, "no floating-point comparison", fmt.Sprintf("SimplifyFlatCoords compares floating-point values itself (%d sites, e.g. %s): vertices are kept or dropped by a criterion other than dpWorker's", n, pos))
+	nd, _ := floatCmps(dw)
+	r.Check(nd >= 1, rule, short(dw)+"/positive-control", p.Pos(dw.Pos()), true, "dpWorker compares the farthest distance with the threshold", "dpWorker no longer compares any float: the matcher or the algorithm changed")
+	var callers []string
+	for _, fn := range p.SrcFuncs(true) {
+		for _, c := range eng.Calls(fn) {
+			if c.Common().StaticCallee() == ds && fn != dw {
+				callers = append(callers, short(fn))
+			}
+		}
+	}
+	r.Check(len(callers) == 0, rule, short(ds)+"/only-caller-dpWorker", p.Pos(ds.Pos()), true, "called by dpWorker only", fmt.Sprintf("distanceFromSegmentSquared is also called by %v: a second place decides about vertices", callers))
+}
+
+// wholeFixRule (C19): the track grows by whole fixes only.
+func wholeFixRule(p *core.Program, r *core.Report, rule string) {
+	r.Rule(rule, "every append onto parser.coords in package igc adds exactly Stride(L) values, L being the constant layout handed to NewLineStringFlat with those coordinates (CONSTEVAL of Layout.Stride), and no return of a non-nil error is reachable after it: a rejected B record leaves no partial fix behind and the flat array stays a multiple of the stride", 2)
+	rel := "encoding/igc"
+	// the layout constant of the resulting LineString
+	stride := int64(-1)
+	where := ""
+	for _, fn := range pkgFuncs(p, rel) {
+		for _, c := range eng.Calls(fn) {
+			f := c.Common().StaticCallee()
+			if f == nil || f.Name() != "NewLineStringFlat" || len(c.Common().Args) != 2 {
+				continue
+			}
+			if _, path, ok := fieldLoad(c.Common().Args[1]); !ok || path != ".coords" {
+				continue
+			}
+			k, isK := eng.ConstInt(c.Common().Args[0])
+			if !isK {
+				r.Bad(rule, short(fn)+"/layout-constant", p.Pos(c.Pos()), "the layout of the track is not a constant")
+				continue
+			}
+			var strideFn *ssa.Function
+			if lt, ok := c.Common().Args[0].Type().(*types.Named); ok {
+				strideFn = p.SSA.LookupMethod(lt, lt.Obj().Pkg(), "Stride")
+			}
+			if strideFn == nil {
+				r.Lost(rule, "geom.Layout.Stride", "method not found")
+				continue
+			}
+			ev := &eng.ConstEval{Inline: pureTableHelper}
+			res := ev.Run(strideFn, []eng.CVal{eng.IntV(k)})
+			if s, ok := res.Ret.Int(); ok {
+				stride, where = s, p.Pos(c.Pos())
+				r.OK(rule, short(fn)+"/layout-constant", p.Pos(c.Pos()), true, fmt.Sprintf("track layout %d has stride %d", k, s))
+			} else {
+				r.Bad(rule, short(fn)+"/layout-constant", p.Pos(c.Pos()), "Stride() of the track layout does not evaluate to a constant: "+res.Ret.String())
+			}
+		}
+	}
+	if stride < 0 {
+		r.Bad(rule, rel+"/track-layout", "", "no NewLineStringFlat(<constant layout>, parser.coords) found")
+		return
+	}
+	n := 0
+	for _, fn := range pkgFuncs(p, rel) {
+		for _, c := range eng.Calls(fn) {
+			cc, ok := c.(*ssa.Call)
+			if !ok || eng.BuiltinName(cc) != "append" || len(cc.Call.Args) != 2 {
+				continue
+			}
+			if _, path, ok := fieldLoad(cc.Call.Args[0]); !ok || path != ".coords" {
+				continue
+			}
+			n++
+			key := fmt.Sprintf("%s/append#%d", short(fn), n)
+			bad := ""
+			width := int64(-1)
+			if sl, isS := cc.Call.Args[1].(*ssa.Slice); isS {
+				if al, isA := sl.X.(*ssa.Alloc); isA {
+					if at, isArr := al.Type().Underlying().(*types.Pointer).Elem().Underlying().(*types.Array); isArr {
+						width = at.Len()
+					}
+				}
+			}
+			if width != stride {
+				bad = fmt.Sprintf("%d values are appended per fix but the track layout (%s) has stride %d: fixes are no longer whole", width, where, stride)
+			}
+			// no error return after the append
+			reach := eng.Reachable(cc.Block(), nil)
+			for b := range reach {
+				if returnsError(b) && bad == "" {
+					ret := b.Instrs[len(b.Instrs)-1]
+					// a return in the append's own block before the append does not count
+					if b == cc.Block() {
+						continue
+					}
+					bad = "a non-nil error can still be returned at " + p.Pos(ret.Pos()) + " after values were appended: the rejected record leaves a partial fix in the track"
+				}
+			}
+			r.Check(bad == "", rule, key, p.Pos(cc.Pos()), true, fmt.Sprintf("appends %d values, nothing can fail afterwards", stride), bad)
+		}
+	}
+	if n == 0 {
+		r.Bad(rule, rel+"/append", "", "no append onto parser.coords found")
+	}
+}
+
+// ringSignRule (C14): every fan triangle is signed by the direction of the very ring it belongs to - shells negated,
+// holes plain - however the code is split into functions.
+func ringSignRule(p *core.Program, r *core.Report, rule string) {
+	r.Rule(rule, "at every call of addTriangle the sign argument resolves, through negations and through parameters bound at each caller, to IsRingCounterClockwise(layout, R) where R is the same value as the ring whose vertices form the triangle; for the ring LinearRing(0) (shell) the predicate is negated, for rings LinearRing(i) (holes) it is not: holes subtract what shells add whatever the ring directions, and a hole is never signed by its shell's direction", 2)
+	at := mustFn(p, r, rule, "xy", "(*AreaCentroidCalculator).addTriangle")
+	if at == nil {
+		return
+	}
+	fns := pkgFuncs(p, "xy")
+	callersOf := func(f *ssa.Function) []ssa.CallInstruction {
+		var out []ssa.CallInstruction
+		for _, g := range fns {
+			for _, c := range eng.Calls(g) {
+				if c.Common().StaticCallee() == f {
+					out = append(out, c)
+				}
+			}
+		}
+		return out
+	}
+	paramIdx := func(fn *ssa.Function, v ssa.Value) int {
+		for i, prm := range fn.Params {
+			if ssa.Value(prm) == v {
+				return i
+			}
+		}
+		return -1
+	}
+	// role of a ring value: shell / hole / unknown, following parameters upwards
+	var role func(fn *ssa.Function, v ssa.Value, depth int) []string
+	role = func(fn *ssa.Function, v ssa.Value, depth int) []string {
+		if depth > 4 {
+			return []string{"unknown"}
+		}
+		if i := paramIdx(fn, v); i >= 0 {
+			var out []string
+			for _, c := range callersOf(fn) {
+				out = append(out, role(c.Parent(), c.Common().Args[i], depth+1)...)
+			}
+			if len(out) == 0 {
+				out = []string{"unknown"}
+			}
+			return out
+		}
+		if fc, ok := v.(*ssa.Call); ok && eng.CalleeObj(fc) != nil && eng.CalleeObj(fc).Name() == "FlatCoords" && len(fc.Call.Args) > 0 {
+			recv := fc.Call.Args[0]
+			for {
+				if fa, isFA := recv.(*ssa.FieldAddr); isFA { // promoted method: &ring.geom1.geom0
+					recv = fa.X
+					continue
+				}
+				break
+			}
+			if lr, ok := recv.(*ssa.Call); ok && eng.CalleeObj(lr) != nil && eng.CalleeObj(lr).Name() == "LinearRing" && len(lr.Call.Args) == 2 {
+				if k, isK := eng.ConstInt(lr.Call.Args[1]); isK && k == 0 {
+					return []string{"shell"}
+				}
+				return []string{"hole"}
+			}
+		}
+		return []string{"unknown"}
+	}
+	n := 0
+	var resolve func(fn *ssa.Function, sign, ring ssa.Value, neg bool, depth int, site string)
+	resolve = func(fn *ssa.Function, sign, ring ssa.Value, neg bool, depth int, site string) {
+		for {
+			if u, ok := sign.(*ssa.UnOp); ok && u.Op == token.NOT {
+				sign, neg = u.X, !neg
+				continue
+			}
+			break
+		}
+		if call, ok := sign.(*ssa.Call); ok && call.Call.StaticCallee() != nil && call.Call.StaticCallee().Name() == "IsRingCounterClockwise" && len(call.Call.Args) == 2 {
+			for _, ro := range role(fn, ring, 0) {
+				n++
+				key := fmt.Sprintf("%s/%s", site, ro)
+				bad := ""
+				switch {
+				case call.Call.Args[1] != ring:
+					bad = "the triangle's sign is IsRingCounterClockwise of " + call.Call.Args[1].String() + ", not of the ring being added (" + ring.String() + "): a ring is signed by another ring's direction"
+				case ro == "shell" && !neg:
+					bad = "the shell passes the plain ring-direction predicate: shells must pass its negation"
+				case ro == "hole" && neg:
+					bad = "a hole passes the negated ring-direction predicate (same polarity as the shell): holes would add instead of subtract"
+				}
+				r.Check(bad == "", rule, key, p.Pos(call.Pos()), true, "signed by its own direction, polarity of a "+ro, bad)
+			}
+			return
+		}
+		si, ri := paramIdx(fn, sign), paramIdx(fn, ring)
+		if si >= 0 && ri >= 0 && depth < 4 {
+			cs := callersOf(fn)
+			for _, c := range cs {
+				resolve(c.Parent(), c.Common().Args[si], c.Common().Args[ri], neg, depth+1, site+"<-"+short(c.Parent()))
+			}
+			if len(cs) > 0 {
+				return
+			}
+		}
+		n++
+		r.Bad(rule, site+"/unresolved", p.Pos(fn.Pos()), "the sign handed to addTriangle ("+sign.String()+") is not derived from IsRingCounterClockwise of the ring being added")
+	}
+	for _, fn := range fns {
+		for _, c := range eng.Calls(fn) {
+			if c.Common().StaticCallee() != at {
+				continue
+			}
+			args := c.Common().Args
+			// the ring: the []float64 parameter of fn
+			var ring ssa.Value
+			for _, prm := range fn.Params {
+				if prm.Type().String() == "[]float64" {
+					ring = prm
+				}
+			}
+			if ring == nil {
+				r.Bad(rule, short(fn)+"/ring", p.Pos(c.Pos()), "addTriangle is called from a function without a ring parameter")
+				continue
+			}
+			resolve(fn, args[len(args)-1], ring, false, 0, short(fn))
+		}
+	}
+}
